@@ -445,3 +445,9 @@ func Render(v avfs.VFS, name, p string) string {
 
 // Itoa is strconv.Itoa (kept here so that harnesses need not import strconv).
 func Itoa(i int) string { return strconv.Itoa(i) }
+
+// NewBareMemFS returns a MemFS whose root holds only /w (no /home, /root, /tmp),
+// so that listings of the root are comparable with the reference worlds.
+func NewBareMemFS() avfs.VFS {
+	return memfs.NewWithOptions(&memfs.Options{SystemDirs: []avfs.DirInfo{{Path: "/w", Perm: 0o755}}})
+}
